@@ -46,9 +46,9 @@ PROPS = {
     },
     "C16": {
         "engines": [storm(sq=12, st=12), storm("venue", arg="C16:venue", sq=4, st=4)],
-        "rule": "each evaluation is the structural predicate on one MarginfiAccount after one instruction or at one commit; distinct = (where, number of active positions, tag set, flags); the venue engine drives worlds with up to 10 pass-through banks of three kinds (Kamino, Solend, Drift) and saturates the integration cap (one account enters every venue bank in turn)",
+        "rule": "each evaluation is the structural predicate on one MarginfiAccount after one instruction or at one commit; distinct = (where, number of active positions, tag set, flags); the venue engine drives worlds with up to 10 pass-through banks of three kinds (Kamino, Solend, Drift) and saturates the integration cap (one account enters every venue bank in turn); the storm engine adds liquidations by fresh accounts (positions opened inside a liquidation next to held ones) and by callers that name a bank twice among the liquidator's observation accounts",
         "assumptions": COMMON_ASSUMPTIONS + ["integration positions of all three kinds (Kamino, Solend, Drift) are opened through the venue stand-ins and through liquidation"],
-        "floors": {"quick": {"ix_ok/Deposit": 500, "ix_ok/Borrow": 100, "ix_ok/KaminoDeposit": 200, "ix_ok/SolendDeposit": 100, "ix_ok/DriftDeposit": 100, "venue.cap_probes_saturated_at_8": 3}},
+        "floors": {"quick": {"ix_ok/Deposit": 500, "ix_ok/Borrow": 100, "ix_ok/KaminoDeposit": 200, "ix_ok/SolendDeposit": 100, "ix_ok/DriftDeposit": 100, "venue.cap_probes_saturated_at_8": 3, "C16.liquidation_opened_position_next_to_held_ones": 100, "C16.liquidations_by_holder_of_collateral_bank_only": 8}},
     },
     "C17": {
         "engines": [storm()],
